@@ -194,6 +194,25 @@ def run(R, tier):
                     if not same(got, want):
                         viol('number-operand', f'{"number " + sym + " x" if side == "left" else "x " + sym + " number"} with number={num!r} differs from the scalar multivector: {got} vs {want}',
                              algebra=spec, op=sym, side=side, number=repr(num), x=[(k, float(v)) for k, v in zip(x.keys(), x.values())])
+        # 3b. numbers that compare equal but are different numbers for python (2 / 2.0, 1024 / 1024.0 with a coefficient beyond 2**53,
+        #     0.0 / -0.0), one after the other on the same algebra and operator: each acts as ITS scalar multivector (types and signs kept)
+        import math as _math
+        xb = oc.make_mv(alg, kb[:2] or [0], [2 ** 53 + 1, 3][:len(kb[:2]) or 1])
+        def strict(v_):
+            v_ = v_.item() if hasattr(v_, 'item') and not isinstance(v_, (int, float)) else v_
+            return (type(v_).__name__, v_, _math.copysign(1.0, v_) if isinstance(v_, float) else 0)
+        for seq in ((1024, 1024.0), (2.0, 2), (0.0, -0.0), (-0.0, 0.0), (True, 1.0)):
+            for num in seq:
+                R.count('clause=number-equal-but-different'); R.case(('num-eq', algs.describe(spec), repr(seq), repr(num), tuple(kb[:2])), True)
+                try:
+                    g_ = xb * num
+                    w_ = xb * MultiVector.fromkeysvalues(alg, (0,), [num])
+                    gs, ws = {int(k_): strict(v_) for k_, v_ in zip(g_.keys(), g_.values())}, {int(k_): strict(v_) for k_, v_ in zip(w_.keys(), w_.values())}
+                except Exception as e:  # noqa
+                    viol('number-raises', f'x * {num!r} raised {type(e).__name__}', algebra=spec, op='*', side='right', number=repr(num)); continue
+                if gs != ws:
+                    viol('number-operand', f'x * {num!r} (after x * {seq[0]!r} on the same algebra) = {gs}, with the scalar multivector holding {num!r}: {ws}; x = {dict(zip(xb.keys(), xb.values()))}',
+                         algebra=spec, op='*', side='right', number=repr(num), x=[(int(k_), int(v_)) for k_, v_ in zip(xb.keys(), xb.values())])
         # 4. list / tuple operands, callables, operand order with non-commuting operands
         a = oc.make_mv(alg, ka, [float(v) for v in oc.random_values(rng, len(ka), zero_p=0)])
         b = oc.make_mv(alg, kb, [float(v) for v in oc.random_values(rng, len(kb), zero_p=0)])
